@@ -20,6 +20,7 @@ type VerifC08Entry struct {
 	Remaining time.Duration // effective remaining lifetime at now (may be <= 0)
 	Prefetch  bool          // a background refresh currently claims the entry
 	Rcode     int
+	Handle    any // opaque: pass to VerifC08Claimed
 }
 
 // VerifC08Peek returns the stored positive-cache entry for (q, cd) without the
@@ -34,11 +35,19 @@ func VerifC08Peek(c *Cache, q dns.Question, cd bool, now time.Time) VerifC08Entr
 	if !ok || e == nil {
 		return VerifC08Entry{}
 	}
-	out := VerifC08Entry{Found: true, Stored: e.stored, TTL: e.ttl, CutUntil: e.cutUntil, Remaining: e.remaining(now), Prefetch: e.prefetch.Load(), Rcode: -1}
+	out := VerifC08Entry{Found: true, Stored: e.stored, TTL: e.ttl, CutUntil: e.cutUntil, Remaining: e.remaining(now), Prefetch: e.prefetch.Load(), Rcode: -1, Handle: e}
 	if m := e.storedMsg(); m != nil {
 		out.Rcode = m.Rcode
 	}
 	return out
+}
+
+// VerifC08Claimed reports whether the entry behind handle is still claimed by a background refresh. The claim is taken
+// on the hit path before the refresh is queued and released by the worker's last deferred call, i.e. after the refreshed
+// entry AND its denial-proof / subtree-cut side effects have been stored.
+func VerifC08Claimed(handle any) bool {
+	e, ok := handle.(*CacheEntry)
+	return ok && e != nil && e.prefetch.Load()
 }
 
 // VerifC08PrefetchBusy reports whether a background refresh is queued or running.
